@@ -74,6 +74,9 @@ def check_select(prog, rep):
                 continue
             S = sols[0]
             kws, stars = kwargs_of(a[S])
+            ba, _callee = prog.bound_args(f, a[S])
+            if ba is not None:
+                kws = ba          # positional and keyword arguments alike, keyed by the callee's parameter names
             for k, v in kws.items():
                 if isinstance(v, ast.Name) and v.id in params and v.id != k and k in params:
                     rep.violate("R1-select", construct, "%s receives %s=%s" % (solver, k, v.id), where(f, a[S]), "%s=%s" % (k, k), v.id)
